@@ -93,13 +93,16 @@ def run(ctx):
              ("find top 1 file start at least 0 any fewest file end", 2100), ("find top 1 at least 0 any 'zz'", 2),
              ("find all not letter not letter", 10**9), ("find all whole line", 10**9), ("find top 2 at least 3 (in 'a' to 'h')", 10**9),
              ("find all (letter = x) x", 10**9), ("find skip 2 take 2 in ' ', '\\n'", 10**9), ("find top 1 whole file", 4200),
-             ("find all between 2 and 5 any line end", 10**9)]
+             ("find all between 2 and 5 any line end", 10**9),
+             # several commands over one file: every command reads the file from the start, whatever the commands before it did with their reader
+             ("replace all 'a' with 'b' find all 'c'", 10**9), ("replace all digit with '#'\nreplace all 'e' with 'E'", 10**9), ("find all 'a' find all 'b' find top 1 any", 10**9),
+             ("replace top 1 'h' with 'H'\nfind all 'h' any\nreplace last 1 letter with ''", 10**9), ("set d to pattern digit\nreplace all d with 'N'\nfind all d d", 10**9)]
     rb, rmeta = [], []
     for sz in sizes:
         if sz > 9000:
             continue
         c = content(rng, sz)
-        for p, lim in (rng.sample(progs, 5) if quick else progs):
+        for p, lim in (rng.sample(progs[:17], 4) + rng.sample(progs[17:], 2) if quick else progs):
             if sz > lim:
                 continue
             rb.append({"op": "runboth", "src_hex": vh.hexs(p), "content_hex": c.hex()})
@@ -122,7 +125,7 @@ def run(ctx):
     ctx.coverage["file_sizes"] = sizes
     ctx.coverage["rule"] = ("file sizes 0, 1, 2, k*2048 +- 1 (k = 1..4) and larger x operation histories (forward runs, one byte back, far back, reads straddling the window, at and "
                             "beyond end of file, zero-length and over-long reads): ReaderFromFile vs ReaderFromString vs the file's bytes vs the model; RunFiles(NOTHING) vs Run on the same "
-                            "bytes for programs that backtrack and look behind; non-trivial = reads returning data / runs with matches")
+                            "bytes for programs that backtrack and look behind, and for programs of several commands (replace then find); non-trivial = reads returning data / runs with matches")
     ctx.sample({"size": len(meta[3][0]), "history": meta[3][1][:6]})
 
 
